@@ -65,6 +65,7 @@ def pool_view(S):
         pv["rxn:@" + rid] = observe.reaction_view(r)
         for m in r.metabolites:
             pv["rxnmet:@%s:%s" % (rid, m.id)] = observe.metabolite_view(m)
+    pv["other"] = observe.unordered(observe.python_view(S.other))
     g = S.pool["G2"]
     pv["grp:G2"] = observe.group_view(g)
     for mem in g.members:
@@ -78,7 +79,7 @@ def state_key(S, view=None, raw=None):
     view = view if view is not None else observe.python_view(S.model)
     raw = raw if raw is not None else observe.raw_lp(S.model)
     key = (observe.freeze(view), observe.lp_canonical(raw, ordered=True),
-           observe.freeze({k: v for k, v in pool_view(S).items()}),
+           observe.freeze({k: v for k, v in pool_view(S).items() if k != "other"}),
            tuple(sorted(S.user_cols)), tuple(sorted(S.user_rows)),
            len(S.stack), tuple(S.trail) if S.stack else ())
     return hashlib.sha1(repr(key).encode()).hexdigest()
